@@ -5,6 +5,7 @@ import (
 	"strings"
 	"time"
 
+	"go.uber.org/zap"
 	"google.golang.org/grpc"
 	"google.golang.org/grpc/metadata"
 	"google.golang.org/protobuf/proto"
@@ -15,6 +16,7 @@ import (
 	"github.com/smart-core-os/sc-golang/internal/testproto"
 	"github.com/smart-core-os/sc-golang/pkg/resource"
 	"github.com/smart-core-os/sc-golang/pkg/router"
+	"github.com/smart-core-os/sc-golang/pkg/server"
 	"github.com/smart-core-os/sc-golang/pkg/trait/bookingpb"
 	"github.com/smart-core-os/sc-golang/pkg/trait/electricpb"
 	"github.com/smart-core-os/sc-golang/pkg/trait/hailpb"
@@ -24,28 +26,34 @@ import (
 	"github.com/smart-core-os/sc-golang/pkg/trait/publicationpb"
 )
 
-// world holds the shared objects of one iteration of one program.  It is built by the main goroutine before the
-// processes are released and never written afterwards.
+// world holds the shared objects of one iteration of one program: up to three INSTANCES of every type.  It is built
+// by the main goroutine before the processes are released and never written afterwards.  Instance 0 gets initial
+// content through options on top of the package's default options; instances 1 and 2 are built with NO options at
+// all (whatever the package-level defaults hold is then shared between them) and get their content through the
+// public API, still before the processes start.
 type world struct {
 	root   context.Context
 	cancel context.CancelFunc
 
-	val  *resource.Value
-	coll *resource.Collection
-	bus  *minibus.Bus
+	val  []*resource.Value
+	coll []*resource.Collection
+	bus  []*minibus.Bus
 
-	rtr    *onoffpb.ApiRouter
-	rtrCli traits.OnOffApiClient // the router itself behind wrap.ServerToClient
+	rtr    []*onoffpb.ApiRouter
+	rtrCli []traits.OnOffApiClient // the router itself behind wrap.ServerToClient
 
-	wrapModel *onoffpb.Model
-	wrapCli   traits.OnOffApiClient // hdrServer behind wrap.ServerToClient
+	wrapModel []*onoffpb.Model
+	wrapCli   []traits.OnOffApiClient // hdrServer behind wrap.ServerToClient
 
-	el   *electricpb.Model
-	par  *parentpb.Model
-	md   *metadatapb.Model
-	hail *hailpb.Model
-	book *bookingpb.Model
-	pub  *publicationpb.Model
+	el   []*electricpb.Model
+	par  []*parentpb.Model
+	md   []*metadatapb.Model
+	hail []*hailpb.Model
+	book []*bookingpb.Model
+	pub  []*publicationpb.Model
+
+	simple map[string][]any // the default-constructed models of the "dflt" family, by type
+	info   []*server.InfoServer
 }
 
 func (w *world) close() { w.cancel() }
@@ -53,71 +61,143 @@ func (w *world) close() { w.cancel() }
 var collIDs = []string{"A", "b", "C"}
 var rtrNames = []string{"n1", "n2", "n3"}
 
-func newWorld(need map[string]bool) *world {
-	w := &world{}
+func newWorld(need map[string]bool, inst int) *world {
+	w := &world{simple: map[string][]any{}}
 	w.root, w.cancel = context.WithCancel(context.Background())
-	if need["val"] {
-		w.val = resource.NewValue(resource.WithInitialValue(mkMsg(1)))
-	}
-	if need["coll"] {
-		w.coll = resource.NewCollection(
-			resource.WithInitialRecord("a", mkMsg(1)),
-			resource.WithInitialRecord("b", mkMsg(2)),
-			resource.WithIDInterceptor(strings.ToLower))
-	}
-	if need["bus"] {
-		w.bus = &minibus.Bus{}
-	}
-	if need["rtr"] {
-		w.rtr = onoffpb.NewApiRouter(
-			onoffpb.WithOnOffApiClientFactory(func(name string) (traits.OnOffApiClient, error) {
-				useString(name)
-				return newOnOffClient(), nil
-			}),
-			router.WithOnChange(func(c router.Change) {
-				// a callback that reads the change it is given
-				useString(c.Name)
-				useAny(c.Old)
-				useAny(c.New)
-				useBool(c.Auto)
-			}))
-		w.rtr.Add("n1", newOnOffClient())
-		w.rtrCli = onoffpb.WrapApi(w.rtr)
-	}
-	if need["wrap"] {
-		w.wrapModel = onoffpb.NewModel(onoffpb.WithInitialOnOff(&traits.OnOff{State: traits.OnOff_ON}))
-		w.wrapCli = onoffpb.WrapApi(&hdrServer{m: w.wrapModel})
-	}
-	if need["el"] {
-		w.el = electricpb.NewModel(
-			electricpb.WithInitialMode(
-				&traits.ElectricMode{Id: "m1", Title: "one", Normal: true, Segments: []*traits.ElectricMode_Segment{{Magnitude: 1}}},
-				&traits.ElectricMode{Id: "m2", Title: "two", Segments: []*traits.ElectricMode_Segment{{Magnitude: 2}, {Magnitude: 3}}}),
-			electricpb.WithInitialDemand(&traits.ElectricDemand{Current: 1, Voltage: proto.Float32(240), Rating: 13}))
-	}
-	if need["par"] {
-		w.par = parentpb.NewModel(parentpb.WithInitialChildren(
-			&traits.Child{Name: "c1", Traits: []*traits.Trait{{Name: "b"}, {Name: "d"}, {Name: "f"}}},
-			&traits.Child{Name: "c2", Traits: []*traits.Trait{{Name: "a"}}}))
-	}
-	if need["md"] {
-		w.md = metadatapb.NewModel(resource.WithInitialValue(&traits.Metadata{
-			Name:       "dev",
-			Traits:     []*traits.TraitMetadata{{Name: "t1", More: map[string]string{"k": "v"}}, {Name: "t3"}},
-			Appearance: &traits.Metadata_Appearance{Title: "title"},
-			More:       map[string]string{"x": "y"},
-		}))
-	}
-	if need["hail"] {
-		w.hail = hailpb.NewModel()
-		_, _ = w.hail.CreateHail(&traits.Hail{Origin: &traits.Hail_Location{DisplayName: "o"}})
-	}
-	if need["book"] {
-		w.book = bookingpb.NewModel(bookingpb.WithInitialBooking(&traits.Booking{Id: "k1", Title: "one", OwnerName: "me"}))
-	}
-	if need["pub"] {
-		w.pub = publicationpb.NewModel(publicationpb.WithInitialPublication(
-			&traits.Publication{Id: "u1", Body: []byte("one"), Audience: &traits.Publication_Audience{Name: "aud"}}))
+	for i := 0; i < inst; i++ {
+		plain := i > 0 // built with default options only
+		if need["val"] {
+			if plain {
+				v := resource.NewValue()
+				_, _ = v.Set(mkMsg(1))
+				w.val = append(w.val, v)
+			} else {
+				w.val = append(w.val, resource.NewValue(resource.WithInitialValue(mkMsg(1))))
+			}
+		}
+		if need["coll"] {
+			if plain {
+				c := resource.NewCollection()
+				_, _ = c.Add("a", mkMsg(1))
+				_, _ = c.Add("b", mkMsg(2))
+				w.coll = append(w.coll, c)
+			} else {
+				w.coll = append(w.coll, resource.NewCollection(
+					resource.WithInitialRecord("a", mkMsg(1)),
+					resource.WithInitialRecord("b", mkMsg(2)),
+					resource.WithIDInterceptor(strings.ToLower)))
+			}
+		}
+		if need["bus"] {
+			w.bus = append(w.bus, &minibus.Bus{})
+		}
+		if need["rtr"] {
+			var r *onoffpb.ApiRouter
+			if plain {
+				r = onoffpb.NewApiRouter(onoffpb.WithOnOffApiClientFactory(func(name string) (traits.OnOffApiClient, error) {
+					return newOnOffClient(), nil
+				}))
+			} else {
+				r = onoffpb.NewApiRouter(
+					onoffpb.WithOnOffApiClientFactory(func(name string) (traits.OnOffApiClient, error) {
+						useString(name)
+						return newOnOffClient(), nil
+					}),
+					router.WithOnChange(func(c router.Change) {
+						// a callback that reads the change it is given
+						useString(c.Name)
+						useAny(c.Old)
+						useAny(c.New)
+						useBool(c.Auto)
+					}))
+			}
+			r.Add("n1", newOnOffClient())
+			w.rtr = append(w.rtr, r)
+			w.rtrCli = append(w.rtrCli, onoffpb.WrapApi(r))
+		}
+		if need["wrap"] {
+			var m *onoffpb.Model
+			if plain {
+				m = onoffpb.NewModel()
+			} else {
+				m = onoffpb.NewModel(onoffpb.WithInitialOnOff(&traits.OnOff{State: traits.OnOff_ON}))
+			}
+			w.wrapModel = append(w.wrapModel, m)
+			w.wrapCli = append(w.wrapCli, onoffpb.WrapApi(&hdrServer{m: m}))
+		}
+		if need["el"] {
+			m1 := &traits.ElectricMode{Id: "m1", Title: "one", Normal: true, Segments: []*traits.ElectricMode_Segment{{Magnitude: 1}}}
+			m2 := &traits.ElectricMode{Id: "m2", Title: "two", Segments: []*traits.ElectricMode_Segment{{Magnitude: 2}, {Magnitude: 3}}}
+			if plain {
+				m := electricpb.NewModel()
+				_ = m.AddMode(m1)
+				_ = m.AddMode(m2)
+				w.el = append(w.el, m)
+			} else {
+				w.el = append(w.el, electricpb.NewModel(
+					electricpb.WithInitialMode(m1, m2),
+					electricpb.WithInitialDemand(&traits.ElectricDemand{Current: 1, Voltage: proto.Float32(240), Rating: 13})))
+			}
+		}
+		if need["par"] {
+			c1 := &traits.Child{Name: "c1", Traits: []*traits.Trait{{Name: "b"}, {Name: "d"}, {Name: "f"}}}
+			c2 := &traits.Child{Name: "c2", Traits: []*traits.Trait{{Name: "a"}}}
+			if plain {
+				m := parentpb.NewModel()
+				m.AddChild(c1)
+				m.AddChild(c2)
+				w.par = append(w.par, m)
+			} else {
+				w.par = append(w.par, parentpb.NewModel(parentpb.WithInitialChildren(c1, c2)))
+			}
+		}
+		if need["md"] {
+			md := &traits.Metadata{
+				Name:       "dev",
+				Traits:     []*traits.TraitMetadata{{Name: "t1", More: map[string]string{"k": "v"}}, {Name: "t3"}},
+				Appearance: &traits.Metadata_Appearance{Title: "title"},
+				More:       map[string]string{"x": "y"},
+			}
+			if plain {
+				m := metadatapb.NewModel()
+				_, _ = m.UpdateMetadata(md)
+				w.md = append(w.md, m)
+			} else {
+				w.md = append(w.md, metadatapb.NewModel(resource.WithInitialValue(md)))
+			}
+		}
+		if need["hail"] {
+			m := hailpb.NewModel()
+			_, _ = m.CreateHail(&traits.Hail{Origin: &traits.Hail_Location{DisplayName: "o"}})
+			w.hail = append(w.hail, m)
+		}
+		if need["book"] {
+			if plain {
+				m := bookingpb.NewModel()
+				_, _ = m.CreateBooking(&traits.Booking{Id: "k1", Title: "one", OwnerName: "me"})
+				w.book = append(w.book, m)
+			} else {
+				w.book = append(w.book, bookingpb.NewModel(bookingpb.WithInitialBooking(&traits.Booking{Id: "k1", Title: "one", OwnerName: "me"})))
+			}
+		}
+		if need["pub"] {
+			u1 := &traits.Publication{Id: "u1", Body: []byte("one"), Audience: &traits.Publication_Audience{Name: "aud"}}
+			if plain {
+				m := publicationpb.NewModel()
+				_, _ = m.CreatePublication(u1)
+				w.pub = append(w.pub, m)
+			} else {
+				w.pub = append(w.pub, publicationpb.NewModel(publicationpb.WithInitialPublication(u1)))
+			}
+		}
+		if need["info"] {
+			w.info = append(w.info, server.NewInfoServer(zap.NewNop()))
+		}
+		for typ, sm := range simpleModels {
+			if need["d."+typ] {
+				w.simple[typ] = append(w.simple[typ], sm.mk()) // always default options only
+			}
+		}
 	}
 	return w
 }
